@@ -206,6 +206,30 @@ func unpublishedAt(r *Run, f *ssa.Function, v ssa.Value, at ssa.Instruction, dep
 			// value loaded from memory: fresh iff loaded from a fresh container (slice header of a fresh table, link of a fresh bucket)
 			a := core.Addr(x.X)
 			if a.Root != nil {
+				// ... unless the container is a local that was filled by copying shared memory into it (a by-value copy of
+				// the published table header: its slice fields still point at the shared buckets)
+				if loc, isLoc := a.Root.(*ssa.Alloc); isLoc {
+					bad := freshInfo{OK: true}
+					core.Instrs(f, func(in2 ssa.Instruction) {
+						st, ok := in2.(*ssa.Store)
+						if !ok || !bad.OK {
+							return
+						}
+						sa := core.Addr(st.Addr)
+						if sa.Root != ssa.Value(loc) {
+							return
+						}
+						if st.Addr != ssa.Value(loc) && sa.Field != a.Field {
+							return
+						}
+						if fi := walk(st.Val); !fi.OK {
+							bad = freshInfo{false, "the local it is read from was filled from shared memory (" + fi.Why + ")"}
+						}
+					})
+					if !bad.OK {
+						return bad
+					}
+				}
 				return walk(a.Root)
 			}
 			return freshInfo{false, "loaded from memory of unknown provenance"}
